@@ -127,12 +127,19 @@ def apply_prelude(tree, prelude, inds, sd):
         tree.simulated_anneal_(tsteps=2, numiter=2, seed=1)
 
 
+class NPSizes(dict):
+    """a size dict whose values are (partly) numpy integers: handed to the
+    library as it is, the references use plain python ints"""
+
+
 def check_case(inputs, output, sd, nested, sl, tier, seed, res, do_exec,
                prelude="none"):
     import cotengra as ctg  # noqa: F401
 
     n = len(inputs)
-    tree = nets.build_tree(inputs, output, sd, nested)
+    tree = nets.build_tree(inputs, output, dict(sd), nested)
+    if isinstance(sd, NPSizes):
+        sd = {ix: int(v) for ix, v in sd.items()}
     if prelude != "none":
         apply_prelude(tree, prelude, U.used_inds(inputs), sd)
     sliced = [ix for ix, m in sl if m == "s"]
@@ -292,6 +299,14 @@ def work(unit):
             sd_big = {ix: (v ** (18 // max(1, v.bit_length() - 1) + 3)
                            if v > 1 else 1) for ix, v in sd.items()}
             variants.append((sd_big, False))
+            if name == "F" and sd_big:
+                # the same sizes given as numpy integers, all but the first
+                # (sizes taken from array metadata often are): the figures
+                # must not wrap around at 2**63
+                first = next(iter(sd_big))
+                variants.append((NPSizes(
+                    (ix, (v if ix == first else np.int64(v)))
+                    for ix, v in sd_big.items()), False))
         for nested in U.all_trees(range(n)):
           for sd, can_exec in variants:
             for sl in subsets(inds, kk):
@@ -300,7 +315,9 @@ def work(unit):
                                name == "U332" and len(sl) == 0):
                     preludes = PRELUDES
                 for prelude in preludes:
-                    case = {"inputs": inp0, "output": out0, "sizes": sd,
+                    case = {"inputs": inp0, "output": out0,
+                            "sizes": {ix: int(v) for ix, v in sd.items()},
+                            "numpy_sizes": isinstance(sd, NPSizes),
                             "tree": nested, "sliced": sl, "seed": seed,
                             "prelude": prelude}
                     try:
@@ -330,10 +347,16 @@ def replay(case):
     output = tup(case["output"])
     sl = tup(case["sliced"])
     res = UnitResult()
+    sd = dict(case["sizes"])
+    big = max(sd.values(), default=1) > 10 ** 4
+    if case.get("numpy_sizes"):
+        first = next(iter(sd))
+        sd = NPSizes((ix, (v if ix == first else np.int64(v)))
+                     for ix, v in sd.items())
     try:
-        bad = check_case(inputs, output, dict(case["sizes"]),
+        bad = check_case(inputs, output, sd,
                          tup(case["tree"]), sl, "quick", case.get("seed", 0),
-                         res, do_exec=True,
+                         res, do_exec=not big,
                          prelude=case.get("prelude", "none"))
     except Exception as e:
         bad = [("exception", repr(e))]
